@@ -27,6 +27,7 @@ CONFIGS = {
     "restore":  dict(callers="{1}", calls=5, inv=1, exits=0, timers=1, race="FALSE", misuse="FALSE", rest=1),
     "restore2": dict(callers="{1}", calls=7, inv=1, exits=0, timers=1, race="FALSE", misuse="FALSE", rest=2),
     "two":    dict(callers="{1, 2}", calls=5, inv=2, exits=0, timers=1, race="FALSE", misuse="FALSE"),
+    "twox":   dict(callers="{1, 2}", calls=4, inv=2, exits=1, timers=1, race="FALSE", misuse="FALSE"),
     "deep":   dict(callers="{1}", calls=8, inv=2, exits=1, timers=1, race="TRUE", misuse="FALSE"),
     # simulation only (lib/mcsim.py): bounds that exhaustive search could not cover
     "sim":    dict(callers="{1}", calls=16, inv=3, exits=1, timers=1, race="FALSE", misuse="TRUE", shut=0),
